@@ -2,7 +2,7 @@
 describe (writer/reader agreement), and the per-limb operators of the mpn logical kernels have the documented
 truth tables.  Tables are read from the linked LLVM IR (fully evaluated initialisers, no C parsing); macro values
 come from `clang -E -dM` on the units that define them; everything is recomputed with exact integer arithmetic."""
-import collections, decimal, math, re, subprocess
+import collections, decimal, json, math, re, subprocess
 
 import sa, compdb
 from core import *
@@ -546,5 +546,114 @@ def run_logic(prop="C10", tier="quick"):
         raise AnalysisBroken("R-TABLES.logic: only %d of the 9 logical kernels found as C functions" % len(seen))
     res["stats"] = dict(res["stats"])
     res["obligations"] = res["stats"].get("truth_rows", 0)
+    res["exhaustive"] = True
+    return res
+
+
+# ---------------------------------------------------------------------------------------------
+# R-TABIDX.digit (C06): every index into the digit-value table is a byte (0..255) - the table has exactly
+# 224 + 256 entries, so an index that can be negative (a plain `char` on this ABI) reads outside it and turns
+# invalid bytes into accepted digits.
+GETC = {"getc", "fgetc", "_IO_getc", "getc_unlocked", "fgetc_unlocked"}
+
+
+def run_digit_index(prop="C06", tier="quick"):
+    res = dict(findings=[], stats=collections.Counter(), samples=[], notes=[])
+    ex = sa.export(sa.cfg_built())
+
+    def byte_typed(e):
+        while isinstance(e, dict) and e.get("k") == "binop" and e["op"] in ("=", ","):
+            e = e["r"]
+        if not isinstance(e, dict):
+            return False
+        k = e.get("k")
+        if k == "int":
+            return 0 <= e["v"] <= 255
+        if k == "cast":
+            return e.get("ct") == "unsigned char" or (e.get("ct") in ("int", "unsigned int", "long", "unsigned long") and byte_typed(e["e"]))
+        if k == "unop" and e["op"] == "*":
+            x = e["e"]
+            while isinstance(x, dict) and x.get("k") == "unop" and x["op"] in ("post++", "pre++", "post--", "pre--"):
+                x = x["e"]
+            if isinstance(x, dict) and x.get("k") == "cast":
+                return "unsigned char *" in x.get("ct", "")
+            return isinstance(x, dict) and x.get("k") == "var" and "unsigned char *" in x.get("ct", "")
+        if k == "index":
+            b = e["base"]
+            return isinstance(b, dict) and b.get("k") in ("var", "cast") and "unsigned char" in b.get("ct", "")
+        if k == "call":
+            return e.get("callee") in GETC
+        if k == "var":
+            return e.get("ct") == "unsigned char"
+        return False
+
+    for path, fn in ex.functions(lambda p: any(d in p for d in ("/mpz/", "/mpq/", "/mpf/", "/scanf/", "/mpn/"))):
+        tabvars = set()
+        for b in fn["blocks"]:
+            for el in b["elems"]:
+                def g(n):
+                    src = None
+                    if n.get("k") == "binop" and n["op"] == "=" and n["l"].get("k") == "var":
+                        src, dst = n["r"], n["l"]
+                    elif n.get("k") == "decl":
+                        for d in n["decls"]:
+                            if "init" in d and "__gmp_digit_value_tab" in json.dumps(d["init"]):
+                                tabvars.add(d["var"]["id"])
+                        return
+                    if src is not None and "__gmp_digit_value_tab" in json.dumps(src):
+                        tabvars.add(dst["id"])
+                sa.walk(el["e"], g)
+        if not tabvars and "__gmp_digit_value_tab" not in json.dumps(fn["blocks"]):
+            continue
+        # definitions of every integer variable
+        defs = collections.defaultdict(list)
+        for b in fn["blocks"]:
+            for el in b["elems"]:
+                def h(n, el=el):
+                    if n.get("k") == "binop" and n["op"] == "=" and n["l"].get("k") == "var":
+                        defs[n["l"]["id"]].append((el["line"], n["r"]))
+                    elif n.get("k") == "binop" and n["op"].endswith("=") and n["op"] not in ("==", "!=", "<=", ">=") and n["l"].get("k") == "var":
+                        defs[n["l"]["id"]].append((el["line"], None))
+                    elif n.get("k") == "decl":
+                        for d in n["decls"]:
+                            if "init" in d:
+                                defs[d["var"]["id"]].append((el["line"], d["init"]))
+                sa.walk(el["e"], h)
+        for b in fn["blocks"]:
+            elems = [(el["line"], el["e"]) for el in b["elems"]]
+            t = b.get("term")
+            if t and t.get("cond"):
+                elems.append((t["line"], t["cond"]))
+            for line, e in elems:
+                def f(n, line=line):
+                    if n.get("k") != "index":
+                        return
+                    bs = n["base"]
+                    while isinstance(bs, dict) and bs.get("k") == "cast":
+                        bs = bs["e"]
+                    is_tab = isinstance(bs, dict) and bs.get("k") == "var" and (bs["id"] in tabvars or bs["name"] == "__gmp_digit_value_tab")
+                    if not is_tab:
+                        return
+                    res["stats"]["table_reads"] += 1
+                    idx = n["idx"]
+                    ok = byte_typed(idx)
+                    bad = None
+                    if not ok and idx.get("k") == "var":
+                        ds = defs.get(idx["id"], [])
+                        badd = [(l, r) for (l, r) in ds if r is None or not byte_typed(r)]
+                        ok = bool(ds) and not badd
+                        bad = badd[0][0] if badd else None
+                    if not ok:
+                        nm = idx.get("name", "<expr>")
+                        res["findings"].append(Finding(prop, "R-TABIDX.digit", fn["file"], line, fn["name"], "digit-index:%s" % nm,
+                                                       "digit-value table is indexed with %s at line %d, which is not confined to 0..255%s: a byte >= 0x80 "
+                                                       "held in a plain char indexes before the table and invalid input is accepted as a digit"
+                                                       % (nm, line, " (assigned at line %d without an unsigned char conversion)" % bad if bad else "")))
+                sa.walk(e, f)
+    if res["stats"]["table_reads"] < 8:
+        raise AnalysisBroken("R-TABIDX.digit found only %d reads of the digit-value table (floor 8)" % res["stats"]["table_reads"])
+    res["stats"] = dict(res["stats"])
+    res["obligations"] = res["stats"]["table_reads"]
+    res["samples"].append(dict(rule="R-TABIDX.digit", table_reads=res["stats"]["table_reads"]))
     res["exhaustive"] = True
     return res
